@@ -539,3 +539,63 @@ fn c07_zoom_block_values() {
 fn c10_zoom_block_bigendian() {
     zoom_block_values(true);
 }
+
+// @harness c03_cached_node_two_queries
+// @props C03 C04 C05
+// @tier thorough
+// @kind stretch
+// @timeout 5400
+// @mem 32
+// @flags c-ffi
+// @functions bbiread::CachedBBIFileRead::blocks_for_cir_tree_node (vacant then occupied cache entry) over std::io::Cursor<Vec<u8>>; read_node, cir_tree_leaf_items, nodes_overlapping
+// @bounds one independently encoded little-endian leaf node with 2 blocks (spans full width); TWO arbitrary queries against the same caching reader: the second answer must not depend on the first
+// @stubs std RandomState::new -> fixed hash keys; SmallVec::push -> within inline capacity (asserted); alloc::fmt::format -> empty
+// @cut the block-data cache (get_block_data) and its 5000-entry reset; non-leaf nodes
+// @witness cover: the first query selects one block and the second the other
+#[kani::proof]
+#[kani::unwind(20)]
+#[kani::stub(alloc::fmt::format, crate::verif_support::fake_format)]
+#[kani::stub(std::hash::RandomState::new, crate::verif_support::fixed_random_state)]
+#[kani::stub(SmallVec::push, crate::verif_support::smallvec_push_inline)]
+fn c03_cached_node_two_queries() {
+    let (c0, s0, e0): (u32, u32, u32) = (kani::any(), kani::any(), kani::any());
+    let (c1, s1, e1): (u32, u32, u32) = (kani::any(), kani::any(), kani::any());
+    kani::assume(s0 <= e0 && s1 <= e1 && c0 <= 1 && c1 <= 1);
+    let mut d: Vec<u8> = Vec::with_capacity(72);
+    d.push(1); d.push(0); put16(&mut d, false, 2);
+    put_leaf(&mut d, false, c0, s0, c0, e0, 1000, 10);
+    put_leaf(&mut d, false, c1, s1, c1, e1, 2000, 20);
+    let mut rd = CachedBBIFileRead::new(std::io::Cursor::new(d));
+    let hit = |q: u32, qs: u32, qe: u32, c: u32, s: u32, e: u32| key(q, qs) <= key(c, e) && key(q, qe) >= key(c, s);
+    // first query
+    let (qa, qas, qae): (u32, u32, u32) = (kani::any(), kani::any(), kani::any());
+    kani::assume(qa <= 1 && qas <= qae);
+    let r1 = rd.blocks_for_cir_tree_node(Endianness::Little, 0, qa, qas, qae);
+    let ok1 = match &r1 {
+        Ok((ch, bl)) => {
+            let (h0, h1) = (hit(qa, qas, qae, c0, s0, e0), hit(qa, qas, qae, c1, s1, e1));
+            ch.is_empty() && bl.len() == (h0 as usize) + (h1 as usize)
+                && (!h0 || bl[0].offset == 1000) && (!h1 || bl[h0 as usize].offset == 2000)
+        }
+        Err(_) => false,
+    };
+    core::mem::forget(r1);
+    assert!(ok1, "[first_query] wrong blocks for the first query");
+    // second query through the now populated cache
+    let (qb, qbs, qbe): (u32, u32, u32) = (kani::any(), kani::any(), kani::any());
+    kani::assume(qb <= 1 && qbs <= qbe);
+    let r2 = rd.blocks_for_cir_tree_node(Endianness::Little, 0, qb, qbs, qbe);
+    let (g0, g1) = (hit(qb, qbs, qbe, c0, s0, e0), hit(qb, qbs, qbe, c1, s1, e1));
+    let ok2 = match &r2 {
+        Ok((ch, bl)) => {
+            ch.is_empty() && bl.len() == (g0 as usize) + (g1 as usize)
+                && (!g0 || bl[0].offset == 1000) && (!g1 || bl[g0 as usize].offset == 2000)
+        }
+        Err(_) => false,
+    };
+    core::mem::forget(r2);
+    assert!(ok2, "[second_query] the answer through the cache differs from the overlap spec (depends on the earlier query?)");
+    let c1c = hit(qa, qas, qae, c0, s0, e0) & !hit(qa, qas, qae, c1, s1, e1) & !g0 & g1;
+    kani::cover!(c1c, "first query selects block 0 only, second block 1 only");
+    core::mem::forget(rd);
+}
